@@ -34,6 +34,7 @@ RULE = (
     " decorator/explicit constraints): the inserted bytes are executed"
     " with the red zone armed and every register compared."
 )
+RULE += " The scratch list the patch receives is the list the allocator chose: building the prologue must not change it."
 ASSUMPTIONS = [
     "flags clobbered by the prologue itself when the patch did not declare flags are only counted (outside the statement)",
     "reads_registers only names allocatable registers that are not also declared clobbered",
